@@ -204,7 +204,7 @@ pub fn run(ctx: &Ctx) -> Report {
          shadow printing in which a binder that is used shadows an outer binder, every probe",
     );
     let cfg = ctx.tier.pick(Cfg::quick(), Cfg::thorough());
-    let cases = ctx.tier.pick(800, 30_000);
+    let cases = ctx.tier.pick(2_400, 30_000);
     let r = run_tapes(ctx, "renaming", cases, 700, |tape, stats| check_case(ctx, tape, &cfg, stats));
     report.absorb(r);
     // probes: depth 1 all forms × via; depth 2 all pairs (direct); depth 3 sampled
